@@ -100,11 +100,13 @@ def body(data, hist):
     P = max(w.prs)
     kind = pick(('wait', 'wait_slash', 'dep_open', 'dep_open', 'dep_declined',
                  'dep_merged', 'dep_unknown', 'dep_nonnumeric', 'dep_two',
-                 'dep_two'), 'hold')
+                 'dep_two', 'dep_two_one_comment', 'dep_merged_then_open'),
+                'hold')
     deps = []
     if kind.startswith('dep_') and kind not in ('dep_unknown',
                                                 'dep_nonnumeric'):
-        for i in range(2 if kind == 'dep_two' else 1):
+        for i in range(2 if kind in ('dep_two', 'dep_two_one_comment',
+                                     'dep_merged_then_open') else 1):
             hist.apply({'op': 'open_pr', 'src': 'feature/TEST-%d-d' % (i + 2),
                         'dst': pick(dests, 'dstD'), 'author': AUTHOR2,
                         'base_back': 0})
@@ -113,7 +115,10 @@ def body(data, hist):
             approve_all(hist, D)
             if kind == 'dep_declined':
                 hist.apply({'op': 'decline', 'pr': D, 'user': AUTHOR2})
-            elif kind == 'dep_merged':
+            elif kind == 'dep_merged' or (kind == 'dep_merged_then_open'
+                                          and i == 1):
+                # (dep_merged_then_open: the LAST listed dependency is
+                # already merged, the first one is still open)
                 for s in merge_steps(hist, D):
                     hist.apply(s)
     pos = pick(('before_first_eval', 'after_w', 'after_green'), 'pos')
@@ -131,14 +136,20 @@ def body(data, hist):
         texts = ['@robot after_pull_request=99']
     elif kind == 'dep_nonnumeric':
         texts = ['@robot after_pull_request=abc']
+    elif kind in ('dep_two_one_comment', 'dep_merged_then_open'):
+        # the documented form: several dependencies in a single comment
+        texts = ['@robot ' + ' '.join('after_pull_request=%d' % d
+                                      for d in deps)]
     else:
         texts = ['@robot after_pull_request=%d' % d for d in deps]
     # lift steps (without the comment deletion) for the probe path
     lift = []
     liftable = True
-    if kind in ('dep_open', 'dep_two'):
+    if kind in ('dep_open', 'dep_two', 'dep_two_one_comment'):
         for d in deps:
             lift += merge_steps(hist, d)
+    elif kind == 'dep_merged_then_open':
+        lift += merge_steps(hist, deps[0])
     # two full report+evaluate rounds in both worlds, so that both reach the
     # same point (first round may only create the integration branches)
     rnd = [{'op': 'report_pr', 'pr': P, 'state': 'SUCCESSFUL'},
@@ -176,7 +187,7 @@ def body(data, hist):
                 'dep_declined', 'dep_merged'):
         for i in range(len(texts)):
             hist.apply({'op': 'delete_comment', 'pr': P, 'nth': 0})
-    if kind == 'dep_two' and len(deps) == 2:
+    if kind in ('dep_two', 'dep_two_one_comment') and len(deps) == 2:
         # one dependency merged, the other still open: P must still be held
         for s in merge_steps(hist, deps[0]):
             hist.apply(s)
